@@ -7,10 +7,14 @@ use samlang_ast::{
   mir::{Binary, Expression, INT_32_TYPE, Statement, ZERO},
 };
 
+/// Works on i64 so that no intermediate overflows. `max_final_value` is the largest value the
+/// counter may reach without wrapping around in 32 bits; if the counter would wrap before it
+/// leaves the guard, the closed form does not apply.
 fn analyze_number_of_iterations_to_break_less_than_guard(
-  initial_guard_value: i32,
-  guard_increment_amount: i32,
-  guarded_value: i32,
+  initial_guard_value: i64,
+  guard_increment_amount: i64,
+  guarded_value: i64,
+  max_final_value: i64,
 ) -> Option<i32> {
   // Condition is already satisfied, so it does not loop.
   if initial_guard_value >= guarded_value {
@@ -23,8 +27,11 @@ fn analyze_number_of_iterations_to_break_less_than_guard(
   }
   let difference = guarded_value - initial_guard_value;
   let count =
-    difference / guard_increment_amount + ((difference % guard_increment_amount != 0) as i32);
-  Some(count)
+    difference / guard_increment_amount + ((difference % guard_increment_amount != 0) as i64);
+  if initial_guard_value + guard_increment_amount * count > max_final_value {
+    return None;
+  }
+  i32::try_from(count).ok()
 }
 
 fn analyze_number_of_iterations_to_break_guard(
@@ -33,26 +40,33 @@ fn analyze_number_of_iterations_to_break_guard(
   operator: GuardOperator,
   guarded_value: i32,
 ) -> Option<i32> {
+  let (initial_guard_value, guard_increment_amount, guarded_value) =
+    (initial_guard_value as i64, guard_increment_amount as i64, guarded_value as i64);
   match operator {
     GuardOperator::LT => analyze_number_of_iterations_to_break_less_than_guard(
       initial_guard_value,
       guard_increment_amount,
       guarded_value,
+      i32::MAX as i64,
     ),
     GuardOperator::LE => analyze_number_of_iterations_to_break_less_than_guard(
       initial_guard_value,
       guard_increment_amount,
       guarded_value + 1,
+      i32::MAX as i64,
     ),
+    // Negated problem: the counter may go down to i32::MIN.
     GuardOperator::GT => analyze_number_of_iterations_to_break_less_than_guard(
       -initial_guard_value,
       -guard_increment_amount,
       -guarded_value,
+      -(i32::MIN as i64),
     ),
     GuardOperator::GE => analyze_number_of_iterations_to_break_less_than_guard(
       -initial_guard_value,
       -guard_increment_amount,
       -(guarded_value - 1),
+      -(i32::MIN as i64),
     ),
   }
 }
